@@ -12,7 +12,7 @@ import sympy as sp
 from sympy import Integer
 
 from ..facts import Broken, pp, loc, walk
-from .. import sym, spec, blocks
+from .. import sym, spec, blocks, regions
 from ..sym import Interp, Unsupported, Vec, SmallMat, BlockVec, Container, Struct
 from ..model import spline_model
 from ..blocks import BlockRun, CASES
@@ -23,12 +23,14 @@ from .c02 import norm_vec, sub_vec, vec_zero, strip_tag
 STATE = ["p", "v", "a", "j"]
 
 
-def run_adjoint(F, M, kind, size=None):
+def run_adjoint(F, M, kind, size=None, resolver=None):
     f = F.func1(M.cls, "propagateGradInternal")
     I = Interp(F, M.cls)
     I.case = dict(CASES[kind])
     if size is not None:
         I.case["size"] = size
+    if resolver is not None:
+        I.size_resolver = resolver
     I.field_assumptions[M.m_count] = {"positive": True}
     env = {}
     for p in f["params"]:
@@ -151,7 +153,14 @@ def check_class(chk, F, M, short, zero_rows=()):
         if d >= 1:
             order_of_arr[arr.split("#")[0]] = d
 
-    runs = {k: run_adjoint(F, M, k) for k in ("middle", "first", "last", "single")}
+    # index aliasing that depends on the size is decided per kind of run: a run whose symbolic iteration is not at once the
+    # first and the last block has at least two blocks (N >= 3); the one-block run is N = 2 exactly
+    m3 = sp.Symbol("n_minus_3", integer=True, nonnegative=True)
+
+    def resolver_for(kind):
+        val = Integer(2) if kind == "single" else m3 + 3
+        return lambda e: sp.expand(sp.sympify(e).subs({s_: regions.size_value(s_, val, M.m_count) for s_ in sp.sympify(e).free_symbols if regions.size_value(s_, val, M.m_count) is not None}))
+    runs = {k: run_adjoint(F, M, k, resolver=resolver_for(k)) for k in ("middle", "first", "last", "single")}
     # ------------------------------------------------------------------------------------- loops
     def loops_of(I):
         seg = [L for L in I.loops if any(e.target == gtimes for e in L.effects) and any(gC in str(e.delta) for e in L.effects if e.delta is not None)]
@@ -273,9 +282,65 @@ def check_class(chk, F, M, short, zero_rows=()):
                 tgd = [a for a in last.value.t]
                 ok = len(tgd) == 1 and sym.is_zero(last.value.coeff(tgd[0]) - 1) and sym.is_zero(sp.sympify(tgd[0][1]).subs(n, 1) - idx.subs(n, 1)) and sym.is_zero(tgd[0][2] - j)
                 chk.ob("C05-R5", "%s N=1: d/d(%s.%s) is the direct closure term" % (cls, side, STATE[j + 1]), ok, loc(f), repr(last.value), construct="%s/N1/%s.%s" % (cls, side, STATE[j + 1]))
+        check_boundary_two_segments(chk, F, M, f, n, gd, names)
 
 
 # ---------------------------------------------------------------------------------------------------
+
+
+def check_boundary_two_segments(chk, F, M, f, n, gd, names):
+    """N = 2: one block, which is the first and the last at once, so the rows of the multiplier the start correction
+    reads are the rows the end correction reads.  The routine is replayed with the sizes of N = 2 (index aliasing and
+    size tests decided for that size) and the boundary gradients are compared with direct term - block^T lambda."""
+    cls = M.cls
+    b = M.s - 1
+
+    def at2(e):
+        e = sp.sympify(e)
+        return e.subs({s_: regions.size_value(s_, 2, M.m_count) for s_ in e.free_symbols if regions.size_value(s_, 2, M.m_count) is not None})
+
+    def size2(c):
+        try:
+            r = sp.simplify(at2(c))
+        except Exception:
+            return None
+        return True if r == sp.true else False if r == sp.false else None
+    try:
+        ff, I2, env2 = run_adjoint(F, M, "single", size=size2, resolver=lambda e: sp.expand(at2(e)))
+    except Unsupported as ex:
+        raise Broken("adjoint not analysable for N = 2: %s" % ex)
+    Bm = BlockRun(F, M, "middle")
+    st = I2.effects
+    def sub2(v):
+        out = Vec()
+        for a, c in v.t.items():
+            a2 = (a[0],) + tuple(sp.expand(at2(x)) if not isinstance(x, str) else x for x in a[1:])
+            out = out.add(Vec({a2: at2(c)}))
+        return out
+    for side, cache, gidx in (("start", Bm.lower_cache, Integer(0)), ("end", Bm.upper_cache, Integer(2))):
+        for j in range(b):
+            fld = names[side] + "." + STATE[j + 1]
+            es = [e for e in st if e.target == fld]
+            if not es or not isinstance(es[-1].value, Vec):
+                raise Broken("boundary gradient %s not assigned on the N = 2 path" % fld)
+            last = es[-1]
+            got = sub2(last.value)
+            others = [a for a in got.t if str(a[0]).split("#")[0] != gd]
+            lam_tags = sorted({a[0] for a in others}, key=str)
+            gd_tag = [a for a in got.t if str(a[0]).split("#")[0] == gd]
+            want = Vec()
+            if gd_tag:
+                want = want.add(Vec.atom((gd_tag[0][0], gidx, Integer(j))))
+            ctags = sorted({str(ix.base) for c in got.t.values() for ix in sp.sympify(c).atoms(sp.Indexed) if str(ix.base).split("#")[0] == cache})
+            Cm = Bm.cache_mat(cache, Integer(0), ctags[0] if ctags else None)
+            ok = len(lam_tags) == 1 and len(ctags) <= 1
+            if ok:
+                for a in range(b):
+                    want = want.add(Vec.atom((lam_tags[0], Integer(a))).scale(-Cm.e[a][j]))
+                d_ = got.add(want, -1)
+                ok = vec_zero(d_)
+            chk.ob("C05-R5", "%s N=2 (one block, first and last at once): d/d(%s.%s) = direct term - (%s block)^T lambda" % (cls, side, STATE[j + 1], "lower" if side == "start" else "upper"),
+                   bool(ok), loc(f, {"line": last.line}), ("multiplier generations read: %s; " % lam_tags) + repr(got.add(want, -1).clean())[:260], construct="%s/N2/%s.%s" % (cls, side, STATE[j + 1]))
 
 
 def check_block_system(chk, F, M, kind, f, I, env, Lsys, Lsolve, gd, names, gtimes, n, ex_s, ex_v, order_of_arr):
@@ -380,8 +445,12 @@ def check_block_system(chk, F, M, kind, f, I, env, Lsys, Lsolve, gd, names, gtim
     sig = Bm.sigma
     # first block
     ok0 = True
+    fw_ = [L for L in Lsolve if L.step == 1 and L not in copyl and any(e.target == lam_base_name for e in L.effects)]
+    before = fw_[0].pos if len(fw_) == 1 and getattr(fw_[0], "pos", None) is not None else None
     for a in range(b):
-        ee = [e for e in st if e.target == lam_base_name and len(e.key) == 1 and not isinstance(e.key[0], str) and sym.is_zero(e.key[0] - a) and e.op == "="]
+        # the first block is solved before the forward sweep; what happens to those rows afterwards is not this rule's business
+        ee = [e for e in st if e.target == lam_base_name and len(e.key) == 1 and not isinstance(e.key[0], str) and sym.is_zero(e.key[0] - a) and e.op == "="
+              and (before is None or getattr(e, "seq", None) is None or e.seq < before)]
         if not ee:
             ok0 = False
             break
